@@ -4,6 +4,7 @@
 # go/packages overlay (gowp mutant), never to /repo itself.  Also reports whether the baseline suite
 # still passes with the mutant (in a scratch worktree) when SUITE=1.
 cd /verif
+export VERIF_EVIDENCE_DIR=/verif/.work/evidence-scratch  # keep the evidence of the unchanged tree
 pat=${1:-}; tier=${2:-quick}
 fail=0
 for f in /verif/selftest/mutants/*${pat}*.diff; do
